@@ -226,7 +226,10 @@ def graph_edges(graph):
     return out
 
 
-def _mk_inmem(graph, latlon=False, linked=None, name="m"):
+def _mk_inmem(graph, latlon=False, linked=None, name="m", steps=None):
+    """InMemMap holding the model graph.  With steps = {"first": k, "warm": [[location, radius], ...]} the map is built from
+    the first k nodes, asked the warm-up spatial queries, and only then extended to the whole graph with add_node / add_edge
+    (a map that is still growing while it is being used)."""
     load_repo()
     from leuvenmapmatching.map.inmem import InMemMap
     le = None
@@ -234,7 +237,22 @@ def _mk_inmem(graph, latlon=False, linked=None, name="m"):
         le = {}
         for a, b in linked:
             le.setdefault(tuple(a), set()).add(tuple(b))
-    return InMemMap(name, graph=graph_dict(graph), use_latlon=latlon, use_rtree=False, linked_edges=le)
+    if not steps:
+        return InMemMap(name, graph=graph_dict(graph), use_latlon=latlon, use_rtree=False, linked_edges=le)
+    k = max(1, min(len(graph), steps["first"]))
+    first = {n[0] for n in graph[:k]}
+    mp = InMemMap(name, graph={lab: ((loc[0], loc[1]), [x for x in nb if x in first]) for lab, loc, nb in graph[:k]},
+                  use_latlon=latlon, use_rtree=False, linked_edges=le)
+    for loc, radius in steps.get("warm", []):
+        mp.nodes_closeto((loc[0], loc[1]), max_dist=radius)
+        mp.edges_closeto((loc[0], loc[1]), max_dist=radius)
+    for lab, loc, nb in graph[k:]:
+        mp.add_node(lab, (loc[0], loc[1]))
+    for lab, loc, nb in graph:
+        for x in nb:
+            if not (lab in first and x in first):
+                mp.add_edge(lab, x)
+    return mp
 
 
 def _mk_sqlite(graph, dirname, latlon=False, name="m", plan=None):
@@ -307,9 +325,9 @@ def _mk_matcher(mapobj, cfg):
     return m
 
 
-def mk_inmem(graph, latlon=False, linked=None, name="m"):
+def mk_inmem(graph, latlon=False, linked=None, name="m", steps=None):
     """InMemMap holding the model graph; an exception of the package while building it is a violation (clause load:...)."""
-    return pkg(_mk_inmem, graph, latlon=latlon, linked=linked, name=name, clause="load")
+    return pkg(_mk_inmem, graph, latlon=latlon, linked=linked, name=name, steps=steps, clause="load")
 
 
 def mk_sqlite(graph, dirname, latlon=False, name="m", plan=None):
